@@ -671,6 +671,11 @@ Proof.
     eapply rrel_bind; [eapply cls_sim'; eassumption|]. intros k sk <-.
     eapply rrel_bind; [apply gnew_sim; eassumption|]. intros r1 r2 [reg' [nl' [HE [HL [HS HV]]]]]. cbn.
     exists reg', nl'. split; [exact HE|]. split; [exact HL|]. split; [exact HS | exact HV].
+  - (* MRo *) inversion HA; subst; [|reflexivity]. cbn [i_fread i_scalar i_lit impl spec].
+    eapply rrel_bind; [apply fread_sim'; eassumption|]. intros v sv HV.
+    destruct HV as [HV0 HV1]. rewrite (scalar_sim _ _ HV1).
+    destruct (s_scalar sv) as [x|]; [|reflexivity].
+    destruct (lit_ro k x); cbn; [|reflexivity]. apply POST0; [exact H | apply lit_sim].
 Qed.
 
 Lemma gindex_sim : forall reg nl xs sxs i, Forall2 (RV reg nl) xs sxs ->
@@ -1107,6 +1112,20 @@ Proof.
     cbn [m_cls bind] in H.
     destruct (gnew (impl false) ct st (o_cls o) vs) as [[s1 v1]|] eqn:EN; cbn [bind fst snd] in H; inversion H; subst.
     eapply gnew_unchanged; eauto.
+  - (* MRo: reads only *) destruct args; [|discriminate]. cbn [i_fread i_scalar i_lit impl] in H.
+    destruct (m_fread false st (VObj o) f) as [v|]; cbn [bind] in H; [|discriminate].
+    destruct (m_scalar v) as [x|]; [|discriminate].
+    destruct (lit_ro k x); cbn [bind] in H; inversion H; subst. apply unchanged_refl.
+Qed.
+
+(* a read-only method leaves the WHOLE state as it was: the receiver too (the statement C08-r3-2 broke: `-self.f` wrote f) *)
+Theorem readonly_method_changes_nothing : forall ct st self k f st' r,
+  gmeth (impl false) ct st self (MRo k f) [] = Ok (st', r) -> st' = st.
+Proof.
+  intros ct st self k f st' r H. unfold gmeth in H. cbn [i_fread i_scalar i_lit impl] in H.
+  destruct (m_fread false st self f) as [v|]; cbn [bind] in H; [|discriminate].
+  destruct (m_scalar v) as [x|]; [|discriminate].
+  destruct (lit_ro k x); cbn [bind] in H; inversion H; reflexivity.
 Qed.
 
 (* bump_f updates its ARGUMENT only; poke_f_g updates the object in field f only *)
